@@ -277,3 +277,50 @@ func H_C19_kinds(t *verifrt.T) {
 	_, wantFull := c19Build(k, 7, 0, false, a)
 	t.Assert("unfiltered-still-complete", verifrt.And(err2 == nil, verifref.BytesEq(full, wantFull)))
 }
+
+// ---------------------------------------------------------------- recursive types
+
+type vqR struct {
+	Val  int    `json:"val"`
+	Tag  string `json:"tag"`
+	Next *vqR   `json:"next"`
+}
+
+func init() {
+	VerifHarnesses["H_C19_recursive"] = H_C19_recursive
+}
+
+// Field queries on a recursive type: the sub-query on the recursive member (or
+// its absence: the whole member) decides what the nested levels show.
+// Recorded finding D59: the root's filtered program is applied at every level.
+func H_C19_recursive(t *verifrt.T) {
+	a := smallInt(t, "a")
+	num := refInt(nil, a)
+	v := &vqR{Val: int(a), Tag: "a", Next: &vqR{Val: 2, Tag: "b", Next: &vqR{Val: 3, Tag: "c"}}}
+	var q *FieldQuery
+	var want, rootEverywhere []byte
+	switch t.Choice("query", 3) {
+	case 0: // ["val",{"next":["tag"]}]
+		q = &FieldQuery{Fields: []*FieldQuery{{Name: "val"}, {Name: "next", Fields: []*FieldQuery{{Name: "tag"}}}}}
+		want = append(append([]byte(`{"val":`), num...), `,"next":{"tag":"b"}}`...)
+		rootEverywhere = append(append([]byte(`{"val":`), num...), `,"next":{"val":2,"next":{"val":3,"next":null}}}`...)
+	case 1: // ["val","next"]: the member as a whole
+		q = &FieldQuery{Fields: []*FieldQuery{{Name: "val"}, {Name: "next"}}}
+		want = append(append([]byte(`{"val":`), num...), `,"next":{"val":2,"tag":"b","next":{"val":3,"tag":"c","next":null}}}`...)
+		rootEverywhere = append(append([]byte(`{"val":`), num...), `,"next":{"val":2,"next":{"val":3,"next":null}}}`...)
+	case 2: // ["tag"]
+		q = &FieldQuery{Fields: []*FieldQuery{{Name: "tag"}}}
+		want = []byte(`{"tag":"a"}`)
+		rootEverywhere = want
+	}
+	out, err := MarshalContext(SetFieldQueryToContext(context.Background(), q), v)
+	t.Assert("marshal-succeeds", err == nil)
+	t.ObserveBytes("out", out)
+	ok := verifref.BytesEq(out, want)
+	kf := verifrt.And(!ok, verifref.BytesEq(out, rootEverywhere))
+	t.Known("D59-field-query-on-recursive-member-uses-the-root-program", kf)
+	t.Assert("projects-exactly-the-selected-fields", verifrt.Or(ok, kf))
+	full, err2 := Marshal(v)
+	wantFull := append(append([]byte(`{"val":`), num...), `,"tag":"a","next":{"val":2,"tag":"b","next":{"val":3,"tag":"c","next":null}}}`...)
+	t.Assert("unfiltered-still-complete", verifrt.And(err2 == nil, verifref.BytesEq(full, wantFull)))
+}
